@@ -21,6 +21,8 @@ def contract_tasks(module, prop, configure=None, names=None, tier="quick"):
                 t["configure"] = conf
             if getattr(c, "configure_small", None):
                 t["configure_small"] = c.configure_small
+            if getattr(c, "configure_small2", None):
+                t["configure_small2"] = c.configure_small2
             out.append(t)
     return out
 
